@@ -395,6 +395,16 @@ static void cppcopy(void)
         ref_xof(A, data, n, exp, 32); cpp_xof_chunks(A, data, n, s1, s2, form, got);
         if (memcmp(got, exp, 32)) { snprintf(kb, sizeof kb, "chunking:cpp:xof%s", A ? "a" : ""); hx_fail(kb, "absorb / squeeze overload %d: %zu bytes cut at %zu and %zu differ from the single-call result", form, n, s1, s2); }
       } }
+    /* pad (C interface): absorb(A), pad, absorb(B) in every chunking of A and B equals the single-call XOF of A, zeros up to the next multiple of the rate, B; pad on an aligned state absorbs nothing */
+    for (int A = 0; A < 2; A++) for (size_t la = 0; la <= 17; la++) for (size_t lb = 0; lb <= 9; lb += 3) for (size_t ca = 0; ca <= la; ca += (la > 6 ? 3 : 1)) {
+        uint8_t pm[48]; size_t pl = (la + 7) / 8 * 8; memset(pm, 0, sizeof pm); memcpy(pm, MSG, la); memcpy(pm + pl, MSG + 20, lb);
+        ref_xof(A, pm, pl + lb, exp, 40);
+        union { ascon_xof_state_t x; ascon_xofa_state_t xa; } st2;
+        if (A) { ascon_xofa_init(&st2.xa); ascon_xofa_absorb(&st2.xa, MSG, ca); ascon_xofa_absorb(&st2.xa, MSG + ca, la - ca); ascon_xofa_pad(&st2.xa); ascon_xofa_pad(&st2.xa); ascon_xofa_absorb(&st2.xa, MSG + 20, lb); ascon_xofa_squeeze(&st2.xa, got, 13); ascon_xofa_squeeze(&st2.xa, got + 13, 27); ascon_xofa_free(&st2.xa); }
+        else { ascon_xof_init(&st2.x); ascon_xof_absorb(&st2.x, MSG, ca); ascon_xof_absorb(&st2.x, MSG + ca, la - ca); ascon_xof_pad(&st2.x); ascon_xof_pad(&st2.x); ascon_xof_absorb(&st2.x, MSG + 20, lb); ascon_xof_squeeze(&st2.x, got, 13); ascon_xof_squeeze(&st2.x, got + 13, 27); ascon_xof_free(&st2.x); }
+        hx_stat("evaluations", 1); hx_stat("transitions", 1);
+        if (memcmp(got, exp, 40)) { snprintf(kb, sizeof kb, "chunking:pad:xof%s", A ? "a" : ""); hx_fail(kb, "absorb(%zu + %zu), pad, pad, absorb(%zu) differs from the single-call XOF over the zero-padded message", ca, la - ca, lb); }
+    }
     /* reset(): a used (and, every other time, already squeezed / finalised) C++ object that is reset continues like a fresh one -- plain classes and the fixed-length templates */
     for (int A = 0; A < 2; A++) for (size_t n = 0; n <= 24; n += 4) for (int rep = 0; rep < 4; rep++) {
         static const size_t decl[3] = {0, 32, 64};
